@@ -284,7 +284,7 @@ func c05Case(t *core.T, steps int, defaultScrypt bool) {
 			newWallet()
 			continue
 		}
-		switch t.R.Pick(12, 18, 12, 10, 10, 14, 8, 6, 4, 14) {
+		switch t.R.Pick(12, 18, 12, 10, 10, 14, 8, 6, 4, 14, 8) {
 		case 0:
 			if len(wallets) < 3 {
 				newWallet()
@@ -567,6 +567,72 @@ func c05Case(t *core.T, steps int, defaultScrypt bool) {
 				if !t.Failed() && !x.removed {
 					afterSigning(x, "a signing call overlapped by refused attempts")
 				}
+			}
+		case 10: // the wallet leaves and comes back: export, remove, import (keystore or mnemonic)
+			t.Eval(1)
+			js, err := w.W.ExportWallet(x.id, x.pass)
+			if err != nil {
+				fail("right-passphrase-refused:export", err.Error())
+				continue
+			}
+			outputs = append(outputs, []byte(js))
+			if err := w.W.RemoveWallet(x.id, x.pass); err != nil {
+				fail("right-passphrase-refused:remove", err.Error())
+				continue
+			}
+			if !w.WorkerIdle(60 * time.Second) {
+				t.Inconclusive("removal did not finish")
+				return
+			}
+			route := "keystore"
+			var ierr error
+			var gotID string
+			if t.R.Chance(60) {
+				sum, e := w.W.ImportWallet(js, x.pass)
+				ierr = e
+				if e == nil {
+					gotID = sum.WalletID
+				}
+			} else {
+				route = "mnemonic"
+				sum, e := w.W.ImportWalletWithMnemonic(&keystore.WalletParams{Mnemonic: x.mnemonic, PrivatePassphrase: []byte(x.pass), ExternalIndex: uint32(x.nAddr), AddressGapLimit: 20})
+				ierr = e
+				if e == nil {
+					gotID = sum.WalletID
+				}
+			}
+			logf("%s exported, removed and imported again (%s) -> %v", x.id[:8], route, ierr)
+			if ierr != nil || gotID != x.id {
+				fail("reimport-failed", fmt.Sprintf("importing the %s of a removed wallet again: id %q (was %q), err %v", route, gotID, x.id, ierr))
+				x.removed = true
+				continue
+			}
+			if !w.WorkerIdle(60 * time.Second) {
+				t.Inconclusive("re-import did not finish")
+				return
+			}
+			// the re-imported wallet must do everything the original did: sign, reveal, export; and refuse
+			if _, err := w.W.UseWallet(x.id); err != nil {
+				fail("usewallet-failed", err.Error())
+				continue
+			}
+			if list, err := w.W.GetAllAddressesWithPubkey(); err == nil {
+				for _, a := range list {
+					if a.PubKey == nil {
+						continue
+					}
+					h := sha256.Sum256([]byte("after re-import"))
+					t.Eval(1)
+					sig, err := w.W.SignHash(a.PubKey, h[:], []byte(x.pass))
+					if err != nil || !sig.Verify(h[:], a.PubKey) {
+						fail("right-passphrase-refused:sign-after-reimport", fmt.Sprintf("SignHash with the right passphrase after the %s import: %v", route, err))
+					}
+					break
+				}
+			}
+			if !t.Failed() {
+				afterSigning(x, "a signature by the re-imported wallet")
+				t.Count("wallets_removed_and_imported_again_"+route, 1)
 			}
 		case 8: // remove with the right passphrase (then the wallet is gone)
 			if len(wallets) < 2 {
